@@ -5,8 +5,9 @@ What is proved here (kernel-checked, no bound on sizes, histories, runes, colour
 
 * `db_layerB` — 41 of the 49 entries of the regenerated terminal database are in the class `LayerB.XtermLike` (every capability
   string the draw path uses is, once TPuts has removed its padding, one of the listed standard ECMA-48 / xterm forms, or absent
-  where the library tolerates that); `db_outside` — the other eight are the four corner-trick entries (beterm, cygwin, sun,
-  sun-color) and the four entries that do not speak ECMA-48 (hpterm, vt52, wy50, wy60).
+  where the library tolerates that; the draw path does not use the bottom-right insert-character trick); `db_cornerLike` — the four
+  corner-trick entries (beterm, cygwin, sun, sun-color) are in the sister class `LayerB.CornerLike` (the same strings, the trick in
+  use, `ich1` = ICH); `db_outside` — the other four do not speak ECMA-48 (hpterm, vt52, wy50, wy60).
 * `rwClip_ok` — the regenerated go-runewidth table, restricted to Go's `rune` range, satisfies the hypotheses
   `RwOk` and `LayerB.RwB` made about the rune-width function.
 * `show_faithful_bytes_partial` — **the byte-level reference emulator** (`Spec.Ecma48`), fed exactly the bytes
@@ -26,7 +27,7 @@ What is proved here (kernel-checked, no bound on sizes, histories, runes, colour
   has added the direct-colour strings, `tiDirect_xl`), for the configuration the driver builds (`drawCfgOf`/`renderCfgOf`).
   `CapsFx` is proved for the class in `Lemmas/LayerBXtermFx.lean` (`xl_capsFx`): `xl_goto_effect` (`cup` with or without
   `$<5>` / `$<10>`), `xl_setPen_effect` (the whole style block for EVERY style without hyperlink: sgr0 in nine forms, sendFgBg
-  with default / reset (`op` in three forms) / palette / direct / fitted colours through setaf, setab, setfgbg in five families of
+  with default / reset (`op` in five forms) / palette / direct / fitted colours through setaf, setab, setfgbg in five families of
   spellings, the three RGB strings, or — monochrome — nothing but a flip of reverse video; bold, underline colour indexed / direct / reset + smul + the
   four underline styles, reverse, blink, dim, italic, strike — each possibly absent or padded —, OSC 8 off where the screen has
   hyperlink strings → pen = `penOf rc s` exactly), `xl_hide_effect` (two `civis` forms), `xl_show_effect` (five `cnorm` forms or
@@ -34,14 +35,22 @@ What is proved here (kernel-checked, no bound on sizes, histories, runes, colour
   every cell a known blank with the style's background, cursor home).  Non-vacuity: `bDemo`, `bDirect` (xterm-256color), `bVt`
   (vt100: monochrome, padded, no civis, no OSC 8) — kernel-evaluated emulator grids.
 
-* **the bottom-right corner trick at the level of bytes** (`Lemmas/LayerBCorner.lean`): `sim_insertChar` — the simulation step for
-  `Cmd.insertChar` (`ich1` = `CSI @` = ICH on the emulator vs `ATerm.insertAt`) in the situation the trick creates;
-  `corner_trick_bytes` / `xl_corner_trick_bytes` — `goto (w-2,y); setPen s; put glyph; goto (w-2,y); ich1` from ANY represented
-  state puts the glyph with `penOf rc s` into the LAST column, cursor known in column `w-2`, no wrap pending, no complaint, for
-  every description with `CapsFx` (in particular `CapsOk` = the class without its no-corner-trick condition);
-  `cygwin_corner_bytes` — the database instance with no hypothesis on the terminal (`db_corner_caps`: cygwin is the one
-  corner-trick entry all of whose strings are in the class), `bCyg` — the model's whole Show on cygwin, kernel-evaluated.
-  NOT done: the history theorems for the four corner-trick entries (`draw_admits` still asks `c.Plain`).
+* **the bottom-right corner trick at the level of bytes** (`Lemmas/LayerBCmd.lean`, `LayerBAdmit.lean`, `LayerBCorner.lean`):
+  `sim_insertChar` — the simulation step for `Cmd.insertChar` (`ich1` = `CSI @` = ICH on the emulator vs `ATerm.insertAt`) in the
+  situation the trick creates (`AdmitIch`); it is a case of `sim_cmd` now (`Admit .insertChar`), and `corner_step` / `draw_admits` prove
+  that every `ich1` of every draw of every history is issued in that situation (cursor in column `w-2` on the narrow glyph just
+  written, on a screen of at least two columns): so `rep_reach`, `show_faithful_bytes_partial`, `sync_faithful_bytes_partial`,
+  `output_wellformed_partial` no longer ask `c.Plain` but `c.Walk` (`cornerTrick` arbitrary) + `IchFx` + Layer A's history side
+  condition `World.SafeRun` (vacuous without the trick).  **`cl_show_faithful_bytes`, `cl_sync_faithful_bytes`,
+  `cl_output_wellformed`, `cl_rep_after`** — the headline statements for every description in `CornerLike`, and their database
+  instances **`db_show_faithful_bytes_corner`, `db_sync_faithful_bytes_corner`, `db_output_wellformed_corner`** for beterm, cygwin,
+  sun, sun-color.  To admit the last three the class `CapsOk` was widened by forms, not by names: `op` spelled as a full SGR reset
+  (`CSI m`, `CSI 0 m`: sendFgBg writes `op` right after `sgr0`, `PenReset`), no `smul` (nothing is underlined: `ulStyleOf`), `clear` =
+  FF on a terminal that clears on FF (`Quiet.ff`: the emulator is configured with `ffClears`, as a Sun console behaves; without it
+  the tokenizer rejects the byte — `bSun`).  Non-vacuity: `bCyg`, `bCyg2` (a later Show that repaints only the bottom-right cell next
+  to a wide rune covering column `w-2`), Sync on cygwin, `bSun` (Sync = FF), `bSunC`, `bBe` — kernel-evaluated emulator grids with the
+  glyph in the bottom-right cell.  `corner_trick_bytes` / `cygwin_corner_bytes` (contributor AF) remain: the first half of the trick from
+  ANY represented state.
 
 The generic theorems keep the suffix `_partial` because they are relative to `CfgB`; for the `xl_`/`db_` theorems what remains
 assumed / outside is:
@@ -51,13 +60,15 @@ assumed / outside is:
       `fitOk_findColor` / `xl_fitOk_findColor`: tcell's own `FindColor` scan (model `Color.findColor`) over the screen's
       palette satisfies it for ANY colour distance, so what is really assumed is only that the `fit` table the model is run
       with is that scan (checked per run by the correspondence).
-  (2) hyperlinks (`Style.url ≠ ""`), cursor-colour requests and the four corner-trick entries are outside the domain (`OpB`,
-      `XtermLike`); terminals outside `XtermLike` (8 database entries, see `db_outside`) are covered only by the generic
-      `_partial` theorems.
+  (2) hyperlinks (`Style.url ≠ ""`) and cursor-colour requests are outside the domain (`OpB`); terminals outside `XtermLike` and
+      `CornerLike` (4 database entries, see `db_outside`) are covered only by the generic `_partial` theorems; on the four
+      corner-trick entries the statements are about histories satisfying `World.SafeRun` (at every draw: at least two columns, no
+      locked cell in the last row — Layer A's side condition, needed there: `Props.C01.corner_trick_lock_desync`).
   (3) the bytes written by Init (engage) are not modelled here: the emulator state `e0` at the start is any state with
       the parser in the ground state, UTF-8, no alternate character set, replace mode and no complaint (`Good`) that is `Quiet`:
       on a terminal for which the screen has no hyperlink strings no hyperlink is active, on a terminal without `civis`/`cnorm`
-      the cursor is visible (vacuous for entries that have both, e.g. the xterm family; true of `Term.init`, `quiet_init`).  The library
+      the cursor is visible, a terminal whose `clear` is FF clears on FF (vacuous for entries that have both strings and a CSI
+      `clear`, e.g. the xterm family; true of `Term.init` with `ffClears` set accordingly, `quiet_init`).  The library
       cannot re-establish either — it writes nothing — so the environment move `corrupt` leaves the hyperlink state of such a
       terminal alone (`LayerB.corruptFor`; cursor visibility is never touched by `corrupt`).
   (4) `XtermLike` asks, beyond the standard forms, that the direct-colour strings come all three or not at all, that the
@@ -77,7 +88,7 @@ open Tcell Tcell.LayerB Tcell.Spec.Ecma48
 
 /-! ### the class over the regenerated database -/
 
-/-- the 41 entries of the built-in database Layer B is proved for -/
+/-- the 41 entries of the built-in database Layer B is proved for without side condition (no corner trick) -/
 def layerBNames : List String :=
   ["aixterm", "alacritty", "alacritty-direct", "ansi", "dtterm", "eterm", "eterm-color", "foot", "gnome", "gnome-256color", "konsole",
    "konsole-256color", "kterm", "linux", "pcansi", "rxvt", "rxvt-256color", "rxvt-88color", "rxvt-unicode", "rxvt-unicode-256color",
@@ -85,8 +96,13 @@ def layerBNames : List String :=
    "vt420", "wy99-ansi", "wy99a-ansi", "xfce", "xterm", "xterm-256color", "xterm-88color", "xterm-direct", "xterm-ghostty",
    "xterm-kitty"]
 
-/-- the entries outside, by reason -/
+/-- the corner-trick entries (auto-margin terminals with `ich1` and no way to switch auto-margin off) Layer B is proved for:
+    the class `CornerLike` -/
+def cornerNames : List String := ["beterm", "cygwin", "sun", "sun-color"]
+
+/-- the entries outside both classes, by reason -/
 def cornerTrickNames : List String := ["beterm", "cygwin", "sun", "sun-color"]
+def cornerOutsideNames : List String := []
 def nonEcmaNames : List String := ["hpterm", "vt52", "wy50", "wy60"]
 
 set_option maxRecDepth 100000 in
@@ -99,16 +115,29 @@ after `cup` / `sgr0` / `clear` / `smul` / `bold` / `rev` / `blink` (vt100, vt102
 `civis`/`cnorm` with the linux console's `CSI ? n c`, `sgr0` with `CSI " q` (wy99) or `;10 … ESC ( B`, and the palette
 strings `%p1%{30}%+%d` (eterm-color), always-`38;5;n` (rxvt-unicode(-256color)) and `38:5:n` (foot); aixterm and pcansi, whose
 `op` does not restore the default colours but SETS colours (`CSI 32 m CSI 40 m`, `CSI 37;40 m`): a style with `ColorReset`
-is shown green / white on black there, and that is what `penOf` says (`opSel`, `fgSel`, `bgSel`).  Outside (`db_outside`):
-the four corner-trick entries; hpterm, vt52, wy50, wy60 do not speak ECMA-48. -/
+is shown green / white on black there, and that is what `penOf` says (`opSel`, `fgSel`, `bgSel`).  Not in this class: the four
+corner-trick entries (class `CornerLike`, `db_cornerLike`); hpterm, vt52, wy50, wy60 do not speak ECMA-48 (`db_outside`). -/
 theorem db_layerB : (Gen.db.all fun e => XtermLike e == layerBNames.contains e.name) = true := by decide +kernel
 
-/-- the eight entries outside the class are exactly the two named groups -/
-theorem db_outside : (Gen.db.all fun e => XtermLike e ||
-    (cornerTrickNames ++ nonEcmaNames).contains e.name) = true ∧
-    (Gen.db.all fun e => cornerTrickNames.contains e.name ==
-      (e.autoMargin && e.disableAutoMargin.isEmpty && !e.insertChar.isEmpty)) = true := by
-  constructor <;> decide +kernel
+set_option maxRecDepth 100000 in
+/-- exactly the entries `cornerNames` of the built-in database are in the class `CornerLike` -/
+theorem db_cornerLike : (Gen.db.all fun e => CornerLike e == cornerNames.contains e.name) = true := by decide +kernel
+
+set_option maxRecDepth 100000 in
+/-- the entries outside both classes are exactly the two named groups; the corner-trick entries (inside or outside) are exactly the
+entries on which drawCell uses the trick; no entry is in both classes -/
+theorem db_outside : (Gen.db.all fun e => (XtermLike e || CornerLike e) !=
+    (cornerOutsideNames ++ nonEcmaNames).contains e.name) = true ∧
+    (Gen.db.all fun e => cornerTrickNames.contains e.name == usesCornerTrick e) = true ∧
+    (Gen.db.all fun e => !(XtermLike e && CornerLike e)) = true ∧
+    (Gen.db.all fun e => cornerTrickNames.contains e.name == (cornerNames ++ cornerOutsideNames).contains e.name) = true := by
+  refine ⟨?_, ?_, ?_, ?_⟩ <;> decide +kernel
+
+theorem db_cornerLike' : ∀ e ∈ Gen.db, e.name ∈ cornerNames → CornerLike e = true := by
+  intro e he hn
+  have := List.all_eq_true.mp db_cornerLike e he
+  have hc : cornerNames.contains e.name = true := by simpa using hn
+  rw [hc] at this; simpa using this
 
 theorem db_layerB' : ∀ e ∈ Gen.db, e.name ∈ layerBNames → XtermLike e = true := by
   intro e he hn
@@ -210,18 +239,21 @@ def after (c : DrawCfg) (rc : RenderCfg) (w h : Int) (e0 : Term) (ops : List Scr
 theorem after_wd (w h : Int) (e0 : Term) (ops : List ScrOp) : (after c rc w h e0 ops).wd = (World.init w h).run c ops :=
   run_wd c rc ops _
 
-/-- **Rep after every history** (the simulation invariant, usable between Shows) -/
+/-- **Rep after every history** (the simulation invariant, usable between Shows); `hsafe`: Layer A's side condition for the
+bottom-right corner trick held at every draw (vacuous on terminals that do not use the trick, `World.SafeRun.of_plain`) -/
 theorem rep_after_partial (hc : CfgB c rc) (w h : Int) (hs : SizeOk w h) (e0 : Term) (he : Good c.rw e0) (hq : Quiet rc e0)
-    (hw : (e0.grid.w : Int) = w) (hh : (e0.grid.h : Int) = h) (ops : List ScrOp) (hv : ∀ op ∈ ops, op.Valid c ∧ OpB c op) :
+    (hw : (e0.grid.w : Int) = w) (hh : (e0.grid.h : Int) = h) (ops : List ScrOp) (hv : ∀ op ∈ ops, op.Valid c ∧ OpB c op)
+    (hsafe : World.SafeRun c (World.init w h) ops) :
     Rep c rc (after c rc w h e0 ops).e (after c rc w h e0 ops).wd.t :=
-  rep_reach hc ops _ (init_inv hc.rwOk w h) (init_bwinv w h hs) (init_rep w h e0 he hq hw hh) hv
+  rep_reach hc ops _ (init_inv hc.rwOk w h) (init_bwinv w h hs) (init_rep w h e0 he hq hw hh) hv hsafe
 
 /-- **C09, draw histories**: whatever the history, the strict tokenizer of the reference emulator has accepted every
 byte the model wrote (no complaint) and the stream ends in the ground state (every control sequence is complete). -/
 theorem output_wellformed_partial (hc : CfgB c rc) (w h : Int) (hs : SizeOk w h) (e0 : Term) (he : Good c.rw e0) (hq : Quiet rc e0)
-    (hw : (e0.grid.w : Int) = w) (hh : (e0.grid.h : Int) = h) (ops : List ScrOp) (hv : ∀ op ∈ ops, op.Valid c ∧ OpB c op) :
+    (hw : (e0.grid.w : Int) = w) (hh : (e0.grid.h : Int) = h) (ops : List ScrOp) (hv : ∀ op ∈ ops, op.Valid c ∧ OpB c op)
+    (hsafe : World.SafeRun c (World.init w h) ops) :
     (after c rc w h e0 ops).e.malformed = [] ∧ (after c rc w h e0 ops).e.st = .ground :=
-  let R := rep_after_partial hc w h hs e0 he hq hw hh ops hv
+  let R := rep_after_partial hc w h hs e0 he hq hw hh ops hv hsafe
   ⟨R.good.mal, R.good.st⟩
 
 /-- what the emulator grid shows for the cells Layer A's `Displays` speaks about: every clean unlocked cell (every cell the
@@ -315,42 +347,54 @@ theorem sync_size (hrw : RwOk c.rw) {wd : World} (inv : WInv c wd) :
   obtain ⟨_, _, e1, e2, _⟩ := (prep_ok hrw wd.sw.s wd.sw.ttyw wd.sw.ttyh inv.buf inv.fini inv.clear).1
   rw [e]; simp only [(draw_size _).1, (draw_size _).2, e1, e2]; exact ⟨trivial, trivial⟩
 
+theorem bwinv_after (hc : CfgB c rc) (w h : Int) (hs : SizeOk w h) (e0 : Term) (ops : List ScrOp)
+    (hv : ∀ op ∈ ops, op.Valid c ∧ OpB c op) (hsafe : World.SafeRun c (World.init w h) ops) :
+    BWInv c (after c rc w h e0 ops).wd := by
+  have : ∀ (os : List ScrOp) (b0 : BWorld), WInv c b0.wd → BWInv c b0.wd → (∀ op ∈ os, op.Valid c ∧ OpB c op) →
+      World.SafeRun c b0.wd os → BWInv c (b0.run c rc os).wd := by
+    intro os
+    induction os with
+    | nil => intro b0 _ h _ _; exact h
+    | cons o os ih =>
+      intro b0 i0 h0 hv0 hs0
+      have ho := hv0 o (List.mem_cons_self ..)
+      exact ih (b0.step c rc o) (step_inv_c hc.rwOk hc.walk i0 o ho.1 hs0.1) (bwinv_step i0 h0 o ho.2)
+        (fun o' h' => hv0 o' (List.mem_cons_of_mem _ h')) hs0.2
+  exact this ops _ (init_inv hc.rwOk w h) (init_bwinv w h hs) hv hsafe
+
 /-- **Show is faithful, at the level of bytes.**  After any valid history, if nothing outside the library has disturbed
 the display since it was last completely repainted, or the window size changed and this Show notices it: the reference
 emulator, having interpreted every byte the model wrote, shows in every unlocked visited cell exactly the payload last set
 there with the SGR state its style denotes (wide runes with their continuation cell, a blank for a wide rune in the last
-column), the cursor is at the requested cell and visible — or invisible if that cell is off-screen. -/
+column), the cursor is at the requested cell and visible — or invisible if that cell is off-screen.  On a terminal that needs
+the bottom-right corner trick this includes the bottom-right cell (written one column early and pushed into place with `ich1`);
+`hsafe` is Layer A's side condition along the history and for this Show (at least two columns, no locked cell in the last row
+whenever the library draws; vacuous on terminals that do not use the trick). -/
 theorem show_faithful_bytes_partial (hc : CfgB c rc) (w h : Int) (hs : SizeOk w h) (e0 : Term) (he : Good c.rw e0) (hq : Quiet rc e0)
-    (hw : (e0.grid.w : Int) = w) (hh : (e0.grid.h : Int) = h) (ops : List ScrOp) (hv : ∀ op ∈ ops, op.Valid c ∧ OpB c op) :
+    (hw : (e0.grid.w : Int) = w) (hh : (e0.grid.h : Int) = h) (ops : List ScrOp) (hv : ∀ op ∈ ops, op.Valid c ∧ OpB c op)
+    (hsafe : World.SafeRun c (World.init w h) (ops ++ [.show])) :
     let b := after c rc w h e0 ops
     (b.wd.trusted = true ∨ ¬ (b.wd.sw.ttyw = b.wd.sw.s.w ∧ b.wd.sw.ttyh = b.wd.sw.s.h)) →
       DisplaysBytes c rc (b.step c rc .show) := by
   intro b htr
+  obtain ⟨hs1, hs2⟩ := safeRun_split ops _ .show hsafe
   have hvA : ∀ op ∈ ops, op.Valid c := fun o ho => (hv o ho).1
   have hwd : b.wd = (World.init w h).run c ops := after_wd w h e0 ops
-  have inv : WInv c b.wd := by rw [hwd]; exact reach_inv hc.rwOk hc.noCorner w h ops hvA
-  have bi : BWInv c b.wd := by
-    have : ∀ (os : List ScrOp) (b0 : BWorld), WInv c b0.wd → BWInv c b0.wd → (∀ op ∈ os, op.Valid c ∧ OpB c op) →
-        BWInv c (b0.run c rc os).wd := by
-      intro os
-      induction os with
-      | nil => intro b0 _ h _; exact h
-      | cons o os ih =>
-        intro b0 i0 h0 hv0
-        have ho := hv0 o (List.mem_cons_self ..)
-        exact ih (b0.step c rc o) (step_inv hc.rwOk hc.noCorner i0 o ho.1) (bwinv_step i0 h0 o ho.2)
-          (fun o' h' => hv0 o' (List.mem_cons_of_mem _ h'))
-    exact this ops _ (init_inv hc.rwOk w h) (init_bwinv w h hs) hv
-  have R := rep_after_partial hc w h hs e0 he hq hw hh ops hv
-  have R' := rep_step hc inv bi R .show trivial
-  have inv' : WInv c (b.step c rc .show).wd := (show_step hc.rwOk hc.noCorner inv).1
-  have D := (show_step hc.rwOk hc.noCorner inv).2 htr
+  rw [← hwd] at hs2
+  have inv : WInv c b.wd := by rw [hwd]; exact reach_inv_c hc.rwOk hc.walk w h ops hvA hs1
+  have bi : BWInv c b.wd := bwinv_after hc w h hs e0 ops hv hs1
+  have R := rep_after_partial hc w h hs e0 he hq hw hh ops hv hs1
+  have R' := rep_step hc inv bi R .show trivial hs2
+  have inv' : WInv c (b.step c rc .show).wd := (show_step_c hc.rwOk hc.walk inv hs2).1
+  have D := (show_step_c hc.rwOk hc.walk inv hs2).2 htr
   exact displaysBytes_of hc inv' R' D (show_size inv)
 
 /-- **Sync is faithful at the level of bytes, from arbitrary display contents** (no trust hypothesis). -/
 theorem sync_faithful_bytes_partial (hc : CfgB c rc) (w h : Int) (hs : SizeOk w h) (e0 : Term) (he : Good c.rw e0) (hq : Quiet rc e0)
-    (hw : (e0.grid.w : Int) = w) (hh : (e0.grid.h : Int) = h) (ops : List ScrOp) (hv : ∀ op ∈ ops, op.Valid c ∧ OpB c op) :
+    (hw : (e0.grid.w : Int) = w) (hh : (e0.grid.h : Int) = h) (ops : List ScrOp) (hv : ∀ op ∈ ops, op.Valid c ∧ OpB c op)
+    (hsafe : World.SafeRun c (World.init w h) (ops ++ [.sync])) :
     DisplaysBytes c rc ((after c rc w h e0 ops).step c rc .sync) := by
+  obtain ⟨hs1, hs2⟩ := safeRun_split ops _ .sync hsafe
   have hv' : ∀ op ∈ ops ++ [ScrOp.sync], op.Valid c ∧ OpB c op := by
     intro o ho; rcases List.mem_append.1 ho with ho | ho
     · exact hv o ho
@@ -358,10 +402,11 @@ theorem sync_faithful_bytes_partial (hc : CfgB c rc) (w h : Int) (hs : SizeOk w 
   have hvA : ∀ op ∈ ops, op.Valid c := fun o ho => (hv o ho).1
   have e : (after c rc w h e0 ops).step c rc .sync = after c rc w h e0 (ops ++ [ScrOp.sync]) := by
     simp [after, BWorld.run, List.foldl_append]
-  have inv : WInv c (after c rc w h e0 ops).wd := by rw [after_wd]; exact reach_inv hc.rwOk hc.noCorner w h ops hvA
-  have R := rep_after_partial hc w h hs e0 he hq hw hh (ops ++ [ScrOp.sync]) hv'
+  rw [← after_wd (c := c) (rc := rc) w h e0 ops] at hs2
+  have inv : WInv c (after c rc w h e0 ops).wd := by rw [after_wd]; exact reach_inv_c hc.rwOk hc.walk w h ops hvA hs1
+  have R := rep_after_partial hc w h hs e0 he hq hw hh (ops ++ [ScrOp.sync]) hv' hsafe
   rw [← e] at R
-  exact displaysBytes_of hc (sync_step hc.rwOk hc.noCorner inv).1 R (sync_step hc.rwOk hc.noCorner inv).2.1
+  exact displaysBytes_of hc (sync_step_c hc.rwOk hc.walk inv hs2).1 R (sync_step_c hc.rwOk hc.walk inv hs2).2.1
     (sync_size hc.rwOk inv)
 
 
@@ -375,7 +420,8 @@ entries. -/
 theorem cfgB_of_xtermlike (hx : XtermLike rc.ti = true) (hd : rc.d = derive rc.ti) (hfit : FitOk rc)
     (hrw : RwOk c.rw) (hrwB : RwB c.rw) (hp : Utf8Payload c) (hpl : c.Plain) (hh : c.hasHide = !rc.ti.hideCursor.isEmpty) :
     CfgB c rc :=
-  { rwOk := hrw, rwB := hrwB, pay := hp, noCorner := hpl, fx := xl_capsFx c (capsOk_of_xl hx) hd hfit hh }
+  { rwOk := hrw, rwB := hrwB, pay := hp, walk := hpl.walk, fx := xl_capsFx c (capsOk_of_xl hx) hd hfit hh,
+    ich := fun h => by rw [hpl.ct] at h; cases h }
 
 /-- the draw configuration of a terminal description in a UTF-8 locale with the regenerated width table, as the driver
 builds it (Driver/Draw.lean `mkCfgs`); `lg`/`wg`/`fz` = which repairs of drawCell / Fill the tree under test has -/
@@ -390,6 +436,9 @@ def drawCfgOf (ti : Terminfo) (lg wg fz : Bool) : DrawCfg :=
 def renderCfgOf (ti : Terminfo) (tc : Bool) (fit fit0 : Nat → Nat) : RenderCfg :=
   { ti := ti, d := derive ti, truecolor := tc && !(ti.setFgBgRGB.isEmpty && ti.setFgRGB.isEmpty && ti.setBgRGB.isEmpty),
     fit := fit, fit0 := fit0 }
+
+theorem plain_of_ti (ti : Terminfo) (hx : XtermLike ti = true) (lg wg fz : Bool) (hwg : wg = true → lg = true) :
+    (drawCfgOf ti lg wg fz).Plain := ⟨xl_noCorner hx, hwg⟩
 
 theorem cfgB_of_ti (ti : Terminfo) (hx : XtermLike ti = true) (lg wg fz tc : Bool) (fit fit0 : Nat → Nat)
     (hwg : wg = true → lg = true) (hfit : FitOk (renderCfgOf ti tc fit fit0)) :
@@ -425,6 +474,7 @@ theorem xl_show_faithful_bytes (w h : Int) (hs : SizeOk w h) (e0 : Term) (he : G
       DisplaysBytes (drawCfgOf ti lg wg fz) (renderCfgOf ti tc fit fit0)
         (b.step (drawCfgOf ti lg wg fz) (renderCfgOf ti tc fit fit0) .show) :=
   show_faithful_bytes_partial (cfgB_of_ti ti hx lg wg fz tc fit fit0 hwg hfit) w h hs e0 he hq hw hh ops hv
+    (World.SafeRun.of_plain (plain_of_ti ti hx lg wg fz hwg) _ _)
 
 /-- **Sync is faithful at the level of bytes on every `XtermLike` terminal, from arbitrary display contents** -/
 theorem xl_sync_faithful_bytes (w h : Int) (hs : SizeOk w h) (e0 : Term) (he : Good rwClip e0) (hq : Quiet (renderCfgOf ti tc fit fit0) e0)
@@ -434,6 +484,7 @@ theorem xl_sync_faithful_bytes (w h : Int) (hs : SizeOk w h) (e0 : Term) (he : G
       ((after (drawCfgOf ti lg wg fz) (renderCfgOf ti tc fit fit0) w h e0 ops).step (drawCfgOf ti lg wg fz)
         (renderCfgOf ti tc fit fit0) .sync) :=
   sync_faithful_bytes_partial (cfgB_of_ti ti hx lg wg fz tc fit fit0 hwg hfit) w h hs e0 he hq hw hh ops hv
+    (World.SafeRun.of_plain (plain_of_ti ti hx lg wg fz hwg) _ _)
 
 /-- **C09 on every `XtermLike` terminal**: over every draw history the strict tokenizer accepts every byte and the stream
 ends in the ground state -/
@@ -443,6 +494,7 @@ theorem xl_output_wellformed (w h : Int) (hs : SizeOk w h) (e0 : Term) (he : Goo
     (after (drawCfgOf ti lg wg fz) (renderCfgOf ti tc fit fit0) w h e0 ops).e.malformed = [] ∧
       (after (drawCfgOf ti lg wg fz) (renderCfgOf ti tc fit fit0) w h e0 ops).e.st = .ground :=
   output_wellformed_partial (cfgB_of_ti ti hx lg wg fz tc fit fit0 hwg hfit) w h hs e0 he hq hw hh ops hv
+    (World.SafeRun.of_plain (plain_of_ti ti hx lg wg fz hwg) _ _)
 
 /-- the simulation invariant after every history, on every `XtermLike` terminal -/
 theorem xl_rep_after (w h : Int) (hs : SizeOk w h) (e0 : Term) (he : Good rwClip e0) (hq : Quiet (renderCfgOf ti tc fit fit0) e0)
@@ -452,6 +504,7 @@ theorem xl_rep_after (w h : Int) (hs : SizeOk w h) (e0 : Term) (he : Good rwClip
       (after (drawCfgOf ti lg wg fz) (renderCfgOf ti tc fit fit0) w h e0 ops).e
       (after (drawCfgOf ti lg wg fz) (renderCfgOf ti tc fit fit0) w h e0 ops).wd.t :=
   rep_after_partial (cfgB_of_ti ti hx lg wg fz tc fit fit0 hwg hfit) w h hs e0 he hq hw hh ops hv
+    (World.SafeRun.of_plain (plain_of_ti ti hx lg wg fz hwg) _ _)
 end
 
 /-- **the headline for the built-in database**: for each of the 41 entries of the class (`layerBNames`) Show is faithful at the
@@ -486,23 +539,144 @@ theorem db_output_wellformed : ∀ e ∈ Gen.db, e.name ∈ layerBNames →
   fun e he hn lg wg fz tc fit fit0 hwg hfit w h hs e0 hg hq hw hh ops hv =>
     xl_output_wellformed e (db_layerB' e he hn) lg wg fz tc fit fit0 hwg hfit w h hs e0 hg hq hw hh ops hv
 
+/-! ### corner-trick terminals: the class `CornerLike` -/
+
+/-- **`CfgB` for every `CornerLike` terminal description** (the draw path uses the bottom-right insert-character trick, every
+string is in the class, `ich1` is ICH), for the configuration the driver builds -/
+theorem cfgB_of_cl (ti : Terminfo) (hx : CornerLike ti = true) (lg wg fz tc : Bool) (fit fit0 : Nat → Nat)
+    (hwg : wg = true → lg = true) (hfit : FitOk (renderCfgOf ti tc fit fit0)) :
+    CfgB (drawCfgOf ti lg wg fz) (renderCfgOf ti tc fit fit0) :=
+  { rwOk := rwClip_ok.1, rwB := rwClip_ok.2, pay := fun _ _ => rfl, walk := ⟨hwg⟩,
+    fx := xl_capsFx (drawCfgOf ti lg wg fz) (rc := renderCfgOf ti tc fit fit0) (capsOk_of_cl hx) rfl hfit rfl,
+    ich := fun _ => ichFx_of (drawCfgOf ti lg wg fz) (renderCfgOf ti tc fit fit0) (cl_ich hx) }
+
+theorem cl_cornerTrick (ti : Terminfo) (hx : CornerLike ti = true) (lg wg fz : Bool) : (drawCfgOf ti lg wg fz).cornerTrick = true :=
+  cl_corner hx
+
+section
+variable (ti : Terminfo) (hx : CornerLike ti = true) (lg wg fz tc : Bool) (fit fit0 : Nat → Nat)
+  (hwg : wg = true → lg = true) (hfit : FitOk (renderCfgOf ti tc fit fit0))
+include hx hwg hfit
+
+/-- **Show is faithful at the level of bytes on every `CornerLike` terminal, the bottom-right cell included.**  For every terminal
+description of the class (auto-margin terminal that cannot switch auto-margin off, with an insert-character string that is ICH,
+every other string in the standard forms), every variant of the draw path, every window size, every start state of the
+emulator and every history of valid operations in the Layer-B domain along which Layer A's side condition holds (`World.SafeRun`:
+whenever the library draws, the screen has at least two columns and no cell of its last row is locked): the reference emulator,
+fed exactly the bytes the byte-exact model writes — among them, for the bottom-right cell, `cup (w-2, h-1)`, the style block, the
+glyph, `cup (w-2, h-1)`, `ich1`, and the repaint of the cell that covers column `w-2` —, shows after Show in every unlocked visited
+cell, THE BOTTOM-RIGHT CELL INCLUDED, the payload last set there with the SGR state `penOf` of its style; the cursor is where
+requested and visible (or parked / hidden).  Nothing has scrolled: the cells of every other row are covered by the same statement. -/
+theorem cl_show_faithful_bytes (w h : Int) (hs : SizeOk w h) (e0 : Term) (he : Good rwClip e0) (hq : Quiet (renderCfgOf ti tc fit fit0) e0)
+    (hw : (e0.grid.w : Int) = w) (hh : (e0.grid.h : Int) = h) (ops : List ScrOp)
+    (hv : ∀ op ∈ ops, op.Valid (drawCfgOf ti lg wg fz) ∧ OpB (drawCfgOf ti lg wg fz) op)
+    (hsafe : World.SafeRun (drawCfgOf ti lg wg fz) (World.init w h) (ops ++ [.show])) :
+    let b := after (drawCfgOf ti lg wg fz) (renderCfgOf ti tc fit fit0) w h e0 ops
+    (b.wd.trusted = true ∨ ¬ (b.wd.sw.ttyw = b.wd.sw.s.w ∧ b.wd.sw.ttyh = b.wd.sw.s.h)) →
+      DisplaysBytes (drawCfgOf ti lg wg fz) (renderCfgOf ti tc fit fit0)
+        (b.step (drawCfgOf ti lg wg fz) (renderCfgOf ti tc fit fit0) .show) :=
+  show_faithful_bytes_partial (cfgB_of_cl ti hx lg wg fz tc fit fit0 hwg hfit) w h hs e0 he hq hw hh ops hv hsafe
+
+/-- **Sync is faithful at the level of bytes on every `CornerLike` terminal, from arbitrary display contents** -/
+theorem cl_sync_faithful_bytes (w h : Int) (hs : SizeOk w h) (e0 : Term) (he : Good rwClip e0) (hq : Quiet (renderCfgOf ti tc fit fit0) e0)
+    (hw : (e0.grid.w : Int) = w) (hh : (e0.grid.h : Int) = h) (ops : List ScrOp)
+    (hv : ∀ op ∈ ops, op.Valid (drawCfgOf ti lg wg fz) ∧ OpB (drawCfgOf ti lg wg fz) op)
+    (hsafe : World.SafeRun (drawCfgOf ti lg wg fz) (World.init w h) (ops ++ [.sync])) :
+    DisplaysBytes (drawCfgOf ti lg wg fz) (renderCfgOf ti tc fit fit0)
+      ((after (drawCfgOf ti lg wg fz) (renderCfgOf ti tc fit fit0) w h e0 ops).step (drawCfgOf ti lg wg fz)
+        (renderCfgOf ti tc fit fit0) .sync) :=
+  sync_faithful_bytes_partial (cfgB_of_cl ti hx lg wg fz tc fit fit0 hwg hfit) w h hs e0 he hq hw hh ops hv hsafe
+
+/-- **C09 on every `CornerLike` terminal**: over every draw history (side condition as above) the strict tokenizer accepts every
+byte — the `ich1` of the corner trick included — and the stream ends in the ground state -/
+theorem cl_output_wellformed (w h : Int) (hs : SizeOk w h) (e0 : Term) (he : Good rwClip e0) (hq : Quiet (renderCfgOf ti tc fit fit0) e0)
+    (hw : (e0.grid.w : Int) = w) (hh : (e0.grid.h : Int) = h) (ops : List ScrOp)
+    (hv : ∀ op ∈ ops, op.Valid (drawCfgOf ti lg wg fz) ∧ OpB (drawCfgOf ti lg wg fz) op)
+    (hsafe : World.SafeRun (drawCfgOf ti lg wg fz) (World.init w h) ops) :
+    (after (drawCfgOf ti lg wg fz) (renderCfgOf ti tc fit fit0) w h e0 ops).e.malformed = [] ∧
+      (after (drawCfgOf ti lg wg fz) (renderCfgOf ti tc fit fit0) w h e0 ops).e.st = .ground :=
+  output_wellformed_partial (cfgB_of_cl ti hx lg wg fz tc fit fit0 hwg hfit) w h hs e0 he hq hw hh ops hv hsafe
+
+/-- the simulation invariant after every history, on every `CornerLike` terminal -/
+theorem cl_rep_after (w h : Int) (hs : SizeOk w h) (e0 : Term) (he : Good rwClip e0) (hq : Quiet (renderCfgOf ti tc fit fit0) e0)
+    (hw : (e0.grid.w : Int) = w) (hh : (e0.grid.h : Int) = h) (ops : List ScrOp)
+    (hv : ∀ op ∈ ops, op.Valid (drawCfgOf ti lg wg fz) ∧ OpB (drawCfgOf ti lg wg fz) op)
+    (hsafe : World.SafeRun (drawCfgOf ti lg wg fz) (World.init w h) ops) :
+    Rep (drawCfgOf ti lg wg fz) (renderCfgOf ti tc fit fit0)
+      (after (drawCfgOf ti lg wg fz) (renderCfgOf ti tc fit fit0) w h e0 ops).e
+      (after (drawCfgOf ti lg wg fz) (renderCfgOf ti tc fit fit0) w h e0 ops).wd.t :=
+  rep_after_partial (cfgB_of_cl ti hx lg wg fz tc fit fit0 hwg hfit) w h hs e0 he hq hw hh ops hv hsafe
+end
+
+/-- **the headline for the corner-trick entries of the built-in database** (`cornerNames`): Show is faithful at the level of bytes,
+the bottom-right cell included, with no hypothesis on the terminal description; what is assumed of the history is Layer A's side
+condition `World.SafeRun` (decidable, `cornerSafeB`) -/
+theorem db_show_faithful_bytes_corner : ∀ e ∈ Gen.db, e.name ∈ cornerNames →
+    ∀ (lg wg fz tc : Bool) (fit fit0 : Nat → Nat), (wg = true → lg = true) → FitOk (renderCfgOf e tc fit fit0) →
+    ∀ (w h : Int), SizeOk w h → ∀ (e0 : Term), Good rwClip e0 → Quiet (renderCfgOf e tc fit fit0) e0 → (e0.grid.w : Int) = w → (e0.grid.h : Int) = h →
+    ∀ (ops : List ScrOp), (∀ op ∈ ops, op.Valid (drawCfgOf e lg wg fz) ∧ OpB (drawCfgOf e lg wg fz) op) →
+      World.SafeRun (drawCfgOf e lg wg fz) (World.init w h) (ops ++ [.show]) →
+      let b := after (drawCfgOf e lg wg fz) (renderCfgOf e tc fit fit0) w h e0 ops
+      (b.wd.trusted = true ∨ ¬ (b.wd.sw.ttyw = b.wd.sw.s.w ∧ b.wd.sw.ttyh = b.wd.sw.s.h)) →
+        DisplaysBytes (drawCfgOf e lg wg fz) (renderCfgOf e tc fit fit0)
+          (b.step (drawCfgOf e lg wg fz) (renderCfgOf e tc fit fit0) .show) :=
+  fun e he hn lg wg fz tc fit fit0 hwg hfit w h hs e0 hg hq hw hh ops hv hsafe =>
+    cl_show_faithful_bytes e (db_cornerLike' e he hn) lg wg fz tc fit fit0 hwg hfit w h hs e0 hg hq hw hh ops hv hsafe
+
+theorem db_sync_faithful_bytes_corner : ∀ e ∈ Gen.db, e.name ∈ cornerNames →
+    ∀ (lg wg fz tc : Bool) (fit fit0 : Nat → Nat), (wg = true → lg = true) → FitOk (renderCfgOf e tc fit fit0) →
+    ∀ (w h : Int), SizeOk w h → ∀ (e0 : Term), Good rwClip e0 → Quiet (renderCfgOf e tc fit fit0) e0 → (e0.grid.w : Int) = w → (e0.grid.h : Int) = h →
+    ∀ (ops : List ScrOp), (∀ op ∈ ops, op.Valid (drawCfgOf e lg wg fz) ∧ OpB (drawCfgOf e lg wg fz) op) →
+      World.SafeRun (drawCfgOf e lg wg fz) (World.init w h) (ops ++ [.sync]) →
+      DisplaysBytes (drawCfgOf e lg wg fz) (renderCfgOf e tc fit fit0)
+        ((after (drawCfgOf e lg wg fz) (renderCfgOf e tc fit fit0) w h e0 ops).step (drawCfgOf e lg wg fz)
+          (renderCfgOf e tc fit fit0) .sync) :=
+  fun e he hn lg wg fz tc fit fit0 hwg hfit w h hs e0 hg hq hw hh ops hv hsafe =>
+    cl_sync_faithful_bytes e (db_cornerLike' e he hn) lg wg fz tc fit fit0 hwg hfit w h hs e0 hg hq hw hh ops hv hsafe
+
+theorem db_output_wellformed_corner : ∀ e ∈ Gen.db, e.name ∈ cornerNames →
+    ∀ (lg wg fz tc : Bool) (fit fit0 : Nat → Nat), (wg = true → lg = true) → FitOk (renderCfgOf e tc fit fit0) →
+    ∀ (w h : Int), SizeOk w h → ∀ (e0 : Term), Good rwClip e0 → Quiet (renderCfgOf e tc fit fit0) e0 → (e0.grid.w : Int) = w → (e0.grid.h : Int) = h →
+    ∀ (ops : List ScrOp), (∀ op ∈ ops, op.Valid (drawCfgOf e lg wg fz) ∧ OpB (drawCfgOf e lg wg fz) op) →
+      World.SafeRun (drawCfgOf e lg wg fz) (World.init w h) ops →
+      (after (drawCfgOf e lg wg fz) (renderCfgOf e tc fit fit0) w h e0 ops).e.malformed = [] ∧
+        (after (drawCfgOf e lg wg fz) (renderCfgOf e tc fit fit0) w h e0 ops).e.st = .ground :=
+  fun e he hn lg wg fz tc fit fit0 hwg hfit w h hs e0 hg hq hw hh ops hv hsafe =>
+    cl_output_wellformed e (db_cornerLike' e he hn) lg wg fz tc fit fit0 hwg hfit w h hs e0 hg hq hw hh ops hv hsafe
+
 /-! ### C09: cursor addressing is accepted by the strict tokenizer for ALL positions -/
 
-/-- for every `XtermLike` terminal and every row and column a Go int can hold, the bytes `TPuts(TGoto(col,row))` writes are
-accepted by the strict tokenizer (no complaint, complete sequence) — replaces the sampled positions of
-`C09.param_caps_accepted_samples` for `cup`. -/
-theorem cup_accepted_all (hx : XtermLike rc.ti = true) (ff : Bool) (x y : Nat)
+/-- for every terminal whose strings are in the class (`CapsOk`: `XtermLike` and `CornerLike`) and every row and column a Go int can hold,
+the bytes `TPuts(TGoto(col,row))` writes are accepted by the strict tokenizer (no complaint, complete sequence) — replaces the sampled
+positions of `C09.param_caps_accepted_samples` for `cup`. -/
+theorem cup_accepted_all_caps (hx : CapsOk rc.ti = true) (ff : Bool) (x y : Nat)
     (hx1 : (x : Int) + 1 < TParm.maxInt64) (hy1 : (y : Int) + 1 < TParm.maxInt64) :
     Tcell.Props.C09.accepts ff (Render.render rc (.goto x y)) = true := by
   unfold Tcell.Props.C09.accepts
   have g : Good (fun _ => 1) (Term.init { w := 4, h := 2, ffClears := ff }) := ⟨rfl, rfl, rfl, rfl, rfl, rfl, rfl, rfl⟩
-  rw [xl_goto_effect (capsOk_of_xl hx) g x y hx1 hy1]
+  rw [xl_goto_effect hx g x y hx1 hy1]
   rfl
+
+theorem cup_accepted_all (hx : XtermLike rc.ti = true) (ff : Bool) (x y : Nat)
+    (hx1 : (x : Int) + 1 < TParm.maxInt64) (hy1 : (y : Int) + 1 < TParm.maxInt64) :
+    Tcell.Props.C09.accepts ff (Render.render rc (.goto x y)) = true :=
+  cup_accepted_all_caps (capsOk_of_xl hx) ff x y hx1 hy1
+
+/-- … and on the four corner-trick entries (`CornerLike`) -/
+theorem cup_accepted_all_corner (hx : CornerLike rc.ti = true) (ff : Bool) (x y : Nat)
+    (hx1 : (x : Int) + 1 < TParm.maxInt64) (hy1 : (y : Int) + 1 < TParm.maxInt64) :
+    Tcell.Props.C09.accepts ff (Render.render rc (.goto x y)) = true :=
+  cup_accepted_all_caps (capsOk_of_cl hx) ff x y hx1 hy1
+
+example : CornerLike Gen.e27 = true := by decide +kernel
 
 /-! ### the hypotheses are satisfiable -/
 
-/-- a freshly initialised emulator is `Quiet` for every terminal description: no hyperlink active, cursor visible -/
-theorem quiet_init (rc : RenderCfg) (cfg : Config) : Quiet rc (Term.init cfg) := ⟨fun _ => ⟨rfl, rfl⟩, fun _ => rfl⟩
+/-- a freshly initialised emulator is `Quiet` for every terminal description: no hyperlink active, cursor visible — provided it
+is configured to clear on FF where the description's `clear` is FF -/
+theorem quiet_init (rc : RenderCfg) (cfg : Config)
+    (hff : Tcell.Spec.TermCaps.stripPadding rc.ti.clear = [12] → cfg.ffClears = true) : Quiet rc (Term.init cfg) :=
+  ⟨fun _ => ⟨rfl, rfl⟩, fun _ => rfl, hff⟩
 
 example : SizeOk 80 24 := by unfold SizeOk TParm.maxInt64; omega
 example : Good rwClip (Term.init { w := 80, h := 24, rw := rwClip }) := ⟨rfl, rfl, rfl, rfl, rfl, rfl, rfl, rfl⟩
@@ -546,7 +720,7 @@ theorem opsDemo_ok : ∀ op ∈ opsDemo, op.Valid dcDemo ∧ OpB dcDemo op := by
 /-- every hypothesis of `db_show_faithful_bytes` holds for this world -/
 example : DisplaysBytes dcDemo rcDemo bDemo :=
   db_show_faithful_bytes Gen.e44 e44_mem e44_name true false true false _ _ (fun h => absurd h (by decide)) fitDemo 4 2
-    (by unfold SizeOk TParm.maxInt64; omega) e0Demo ⟨rfl, rfl, rfl, rfl, rfl, rfl, rfl, rfl⟩ (quiet_init _ _) rfl rfl opsDemo
+    (by unfold SizeOk TParm.maxInt64; omega) e0Demo ⟨rfl, rfl, rfl, rfl, rfl, rfl, rfl, rfl⟩ (quiet_init _ _ (by decide +kernel)) rfl rfl opsDemo
     opsDemo_ok (Or.inl (by decide +kernel))
 
 set_option maxRecDepth 100000 in
@@ -600,7 +774,7 @@ theorem opsVt_ok : ∀ op ∈ opsVt, op.Valid dcVt ∧ OpB dcVt op := by
 
 example : DisplaysBytes dcVt rcVt bVt :=
   db_show_faithful_bytes Gen.e31 e31_mem e31_name true false true false _ _ (fun h => absurd h (by decide)) fitVt 4 2
-    (by unfold SizeOk TParm.maxInt64; omega) e0Demo ⟨rfl, rfl, rfl, rfl, rfl, rfl, rfl, rfl⟩ (quiet_init _ _) rfl rfl opsVt
+    (by unfold SizeOk TParm.maxInt64; omega) e0Demo ⟨rfl, rfl, rfl, rfl, rfl, rfl, rfl, rfl⟩ (quiet_init _ _ (by decide +kernel)) rfl rfl opsVt
     opsVt_ok (Or.inl (by decide +kernel))
 
 set_option maxRecDepth 100000 in
@@ -618,8 +792,9 @@ example : (bVt.e.grid.get 0 0).runes = [0x4e16] ∧
 /-! ### the corner trick at the level of bytes: cygwin -/
 
 set_option maxRecDepth 100000 in
-/-- of the four corner-trick entries, cygwin is the one all of whose strings are in the class (`CapsOk`); its `ich1` is `CSI @` -/
-theorem db_corner_caps : (Gen.db.all fun e => (CapsOk e && !XtermLike e) == (e.name == "cygwin")) = true ∧
+/-- the entries whose strings are in the class (`CapsOk`) but which are not `XtermLike` are exactly the four corner-trick entries (since
+the class admits `op` spelled as a full SGR reset, a missing `smul` and `clear` = FF: all four, not only cygwin); cygwin's `ich1` is `CSI @` -/
+theorem db_corner_caps : (Gen.db.all fun e => (CapsOk e && !XtermLike e) == cornerNames.contains e.name) = true ∧
     Gen.e05.name = "cygwin" ∧ CapsOk Gen.e05 = true ∧ Tcell.Spec.TermCaps.stripPadding Gen.e05.insertChar = [27, 91, 64] := by
   decide +kernel
 
@@ -636,18 +811,216 @@ theorem cygwin_corner_bytes (lg wg fz tc : Bool) (fit fit0 : Nat → Nat) (hfit 
     CornerTrickFx (drawCfgOf Gen.e05 lg wg fz) (renderCfgOf Gen.e05 tc fit fit0) :=
   ti_corner_trick_bytes Gen.e05 db_corner_caps.2.2.1 db_corner_caps.2.2.2 lg wg fz tc fit fit0 hfit
 
-/-- … and the whole trick as the model performs it (Show on a 4×2 cygwin screen with `x` set in the bottom-right cell and `a`
-left of it): the emulator shows both, the cursor ends at home, nothing scrolled (row 0 still blank), no complaint -/
+/-! ### non-vacuity of the `CornerLike` history theorems: cygwin, an actual write to the bottom-right cell -/
+
 def rcCyg : RenderCfg := renderCfgOf Gen.e05 false (fun _ => 2^32) (fun _ => 2^32)
 def dcCyg : DrawCfg := drawCfgOf Gen.e05 true false true
-def bCyg : BWorld :=
-  (after dcCyg rcCyg 4 2 e0Demo [.setContent 2 1 0x61 [] {}, .setContent 3 1 0x78 [] { attrs := 1 }]).step dcCyg rcCyg .show
+/-- `a` in column 2 of the last row, a bold `x` in the bottom-right cell of a 4×2 screen -/
+def opsCyg : List ScrOp := [.setContent 2 1 0x61 [] {}, .setContent 3 1 0x78 [] { attrs := 1 }]
+def bCyg : BWorld := (after dcCyg rcCyg 4 2 e0Demo opsCyg).step dcCyg rcCyg .show
+
+theorem e05_mem : Gen.e05 ∈ Gen.db := by simp [Gen.db]
+theorem e05_name : Gen.e05.name ∈ cornerNames := by decide
+
+theorem fitCyg : FitOk rcCyg := by
+  intro _ col
+  have : Render.nColors rcCyg = 8 := by decide
+  have e : rcCyg.fit col = 2^32 := rfl
+  rw [this, e]; omega
+
+theorem opsCyg_ok : ∀ op ∈ opsCyg, op.Valid dcCyg ∧ OpB dcCyg op := by
+  intro op hop
+  simp only [opsCyg, List.mem_cons, List.not_mem_nil, or_false] at hop
+  rcases hop with rfl | rfl
+  · exact ⟨by simp [ScrOp.Valid, attrInvalid], by simp, rfl⟩
+  · exact ⟨by simp [ScrOp.Valid, attrInvalid], by simp, rfl⟩
+
+/-- Layer A's side condition along this history: two columns at least, no locked cell in the last row at the Show -/
+theorem opsCyg_safe : World.SafeRun dcCyg (World.init 4 2) (opsCyg ++ [.show]) :=
+  ⟨trivial, trivial, cornerSafe_of_B (by decide +kernel), trivial⟩
+
+/-- every hypothesis of `db_show_faithful_bytes_corner` holds for this world -/
+example : DisplaysBytes dcCyg rcCyg bCyg :=
+  db_show_faithful_bytes_corner Gen.e05 e05_mem e05_name true false true false _ _ (fun h => absurd h (by decide)) fitCyg 4 2
+    (by unfold SizeOk TParm.maxInt64; omega) e0Demo ⟨rfl, rfl, rfl, rfl, rfl, rfl, rfl, rfl⟩ (quiet_init _ _ (by decide +kernel)) rfl rfl opsCyg
+    opsCyg_ok opsCyg_safe (Or.inl (by decide +kernel))
 
 set_option maxRecDepth 100000 in
+/-- … and what the emulator shows (kernel evaluation of the emulator on the bytes of the model): the trick is in use, the bold `x`
+is in the bottom-right cell, `a` left of it, the cursor ended at home, nothing scrolled (row 0 still blank), no complaint -/
 example : dcCyg.cornerTrick = true ∧
     (bCyg.e.grid.get 3 1).runes = [0x78] ∧ (bCyg.e.grid.get 3 1).pen = { bold := true } ∧ (bCyg.e.grid.get 3 1).garbage = false ∧
     (bCyg.e.grid.get 2 1).runes = [0x61] ∧ (bCyg.e.grid.get 2 1).pen = {} ∧ (bCyg.e.grid.get 2 1).garbage = false ∧
     (bCyg.e.grid.get 0 0).runes = [32] ∧ bCyg.e.pendingWrap = false ∧ bCyg.e.malformed = [] := by decide +kernel
+
+/-- a later Show that repaints ONLY the bottom-right cell, next to a wide rune that covers column `w-2`: the trick writes `y` over
+the right half of `世`, pushes it right with `ich1` and repaints the wide rune from its start column (`cornerPx`) -/
+def opsCyg2 : List ScrOp :=
+  [.setContent 1 1 0x4e16 [] {}, .setContent 3 1 0x78 [] { attrs := 1 }, .show, .setContent 3 1 0x79 [] { attrs := 4 }]
+def bCyg2 : BWorld := (after dcCyg rcCyg 4 2 e0Demo opsCyg2).step dcCyg rcCyg .show
+
+theorem opsCyg2_ok : ∀ op ∈ opsCyg2, op.Valid dcCyg ∧ OpB dcCyg op := by
+  intro op hop
+  simp only [opsCyg2, List.mem_cons, List.not_mem_nil, or_false] at hop
+  rcases hop with rfl | rfl | rfl | rfl
+  · exact ⟨by simp [ScrOp.Valid, attrInvalid], by simp, rfl⟩
+  · exact ⟨by simp [ScrOp.Valid, attrInvalid], by simp, rfl⟩
+  · exact ⟨trivial, trivial⟩
+  · exact ⟨by simp [ScrOp.Valid, attrInvalid], by simp, rfl⟩
+
+theorem opsCyg2_safe : World.SafeRun dcCyg (World.init 4 2) (opsCyg2 ++ [.show]) :=
+  ⟨trivial, trivial, cornerSafe_of_B (by decide +kernel), trivial, cornerSafe_of_B (by decide +kernel), trivial⟩
+
+example : DisplaysBytes dcCyg rcCyg bCyg2 :=
+  db_show_faithful_bytes_corner Gen.e05 e05_mem e05_name true false true false _ _ (fun h => absurd h (by decide)) fitCyg 4 2
+    (by unfold SizeOk TParm.maxInt64; omega) e0Demo ⟨rfl, rfl, rfl, rfl, rfl, rfl, rfl, rfl⟩ (quiet_init _ _ (by decide +kernel)) rfl rfl opsCyg2
+    opsCyg2_ok opsCyg2_safe (Or.inl (by decide +kernel))
+
+set_option maxRecDepth 100000 in
+/-- the second Show wrote the corner trick and nothing else (between the two cursor parkings of a terminal without `civis`: `cup 2;3`,
+style, `y`, `cup 2;3`, `CSI @`, `cup 2;2`, style, `世`, `cup 1;1`), and the emulator shows the reverse-video `y` bottom-right, the wide
+rune intact, the cursor parked in the bottom-right cell with no wrap pending -/
+example : (bCyg2.e.grid.get 3 1).runes = [0x79] ∧ (bCyg2.e.grid.get 3 1).pen = { reverse := true } ∧
+    (bCyg2.e.grid.get 3 1).garbage = false ∧
+    (bCyg2.e.grid.get 1 1).runes = [0x4e16] ∧ (bCyg2.e.grid.get 2 1).cont = true ∧ (bCyg2.e.grid.get 1 1).garbage = false ∧
+    (bCyg2.e.grid.get 0 1).runes = [32] ∧ (bCyg2.e.grid.get 0 0).runes = [32] ∧
+    (bCyg2.e.cx, bCyg2.e.cy) = (3, 1) ∧ bCyg2.e.pendingWrap = false ∧ bCyg2.e.malformed = [] ∧
+    ((after dcCyg rcCyg 4 2 e0Demo opsCyg2).wd.sw.step dcCyg .show).2 =
+      [.goto 4 2, .goto 2 1, .setPen { attrs := 4 }, .put [0x79] 1, .goto 2 1, .insertChar,
+       .goto 1 1, .setPen {}, .put [0xe4, 0xb8, 0x96] 2, .goto 0 0, .goto 4 2] := by decide +kernel
+
+/-- C09 on the same history (both Shows included): every hypothesis of `db_output_wellformed_corner` holds -/
+def opsCyg3 : List ScrOp := opsCyg2 ++ [.show]
+
+theorem opsCyg3_ok : ∀ op ∈ opsCyg3, op.Valid dcCyg ∧ OpB dcCyg op := by
+  intro op hop
+  rcases List.mem_append.1 hop with h | h
+  · exact opsCyg2_ok op h
+  · simp only [List.mem_singleton] at h; subst h; exact ⟨trivial, trivial⟩
+
+example : (after dcCyg rcCyg 4 2 e0Demo opsCyg3).e.malformed = [] ∧ (after dcCyg rcCyg 4 2 e0Demo opsCyg3).e.st = .ground :=
+  db_output_wellformed_corner Gen.e05 e05_mem e05_name true false true false (fun _ => 2^32) (fun _ => 2^32)
+    (fun h => absurd h (by decide)) fitCyg 4 2
+    (by unfold SizeOk TParm.maxInt64; omega) e0Demo ⟨rfl, rfl, rfl, rfl, rfl, rfl, rfl, rfl⟩ (quiet_init _ _ (by decide +kernel)) rfl rfl
+    opsCyg3 opsCyg3_ok opsCyg2_safe
+
+/-- `cup` for all positions on a corner-trick entry: the hypothesis of `cup_accepted_all_corner` holds for cygwin -/
+example : Tcell.Props.C09.accepts false (Render.render rcCyg (.goto 100000 70000)) = true :=
+  cup_accepted_all_corner (rc := rcCyg) (db_cornerLike' Gen.e05 e05_mem e05_name) false 100000 70000
+    (by unfold TParm.maxInt64; omega) (by unfold TParm.maxInt64; omega)
+
+/-- the state sendFgBg finds: right after SGR reset the pen is `PenReset` -/
+example (t : Term) : PenReset (reset t) := ⟨rfl, rfl⟩
+
+/-- Sync on the same history: every hypothesis of `db_sync_faithful_bytes_corner` holds -/
+example : DisplaysBytes dcCyg rcCyg ((after dcCyg rcCyg 4 2 e0Demo opsCyg2).step dcCyg rcCyg .sync) :=
+  db_sync_faithful_bytes_corner Gen.e05 e05_mem e05_name true false true false _ _ (fun h => absurd h (by decide)) fitCyg 4 2
+    (by unfold SizeOk TParm.maxInt64; omega) e0Demo ⟨rfl, rfl, rfl, rfl, rfl, rfl, rfl, rfl⟩ (quiet_init _ _ (by decide +kernel)) rfl rfl opsCyg2
+    opsCyg2_ok ⟨trivial, trivial, cornerSafe_of_B (by decide +kernel), trivial, cornerSafe_of_B (by decide +kernel), trivial⟩
+
+/-! ### non-vacuity for the forms admitted for the other corner-trick entries: sun (`clear` = FF, monochrome, no `smul`),
+sun-color (`op` = `CSI 0 m`, `38;5;n` palette strings, no `setfgbg`), beterm (`op` = `CSI m`) -/
+
+def rcSun : RenderCfg := renderCfgOf Gen.e27 false (fun _ => 0) (fun _ => Render.colorWhite)
+def dcSun : DrawCfg := drawCfgOf Gen.e27 true false true
+/-- an emulator that clears on FF, as a Sun console does -/
+def e0Sun : Term := Term.init { w := 4, h := 2, rw := rwClip, ffClears := true }
+/-- reverse video, underlined: the description has no `smul`, so no underline is shown (`ulStyleOf`) -/
+def stSun : Style := { ulStyle := 1, attrs := 4 }
+def opsSun : List ScrOp := [.setContent 0 0 0x61 [] {}, .setContent 3 1 0x78 [] stSun]
+/-- Sync: clearScreen writes FF -/
+def bSun : BWorld := (after dcSun rcSun 4 2 e0Sun opsSun).step dcSun rcSun .sync
+
+theorem e27_mem : Gen.e27 ∈ Gen.db := by simp [Gen.db]
+theorem e27_name : Gen.e27.name ∈ cornerNames := by decide
+theorem fitSun : FitOk rcSun := fun h => absurd (by decide) h
+
+theorem opsSun_ok : ∀ op ∈ opsSun, op.Valid dcSun ∧ OpB dcSun op := by
+  intro op hop
+  simp only [opsSun, List.mem_cons, List.not_mem_nil, or_false] at hop
+  rcases hop with rfl | rfl
+  · exact ⟨by simp [ScrOp.Valid, attrInvalid], by simp, rfl⟩
+  · exact ⟨by simp [ScrOp.Valid, attrInvalid, stSun], by simp, rfl⟩
+
+example : DisplaysBytes dcSun rcSun bSun :=
+  db_sync_faithful_bytes_corner Gen.e27 e27_mem e27_name true false true false _ _ (fun h => absurd h (by decide)) fitSun 4 2
+    (by unfold SizeOk TParm.maxInt64; omega) e0Sun ⟨rfl, rfl, rfl, rfl, rfl, rfl, rfl, rfl⟩ (quiet_init _ _ (fun _ => rfl)) rfl rfl opsSun
+    opsSun_ok ⟨trivial, trivial, cornerSafe_of_B (by decide +kernel), trivial⟩
+
+set_option maxRecDepth 100000 in
+/-- … the grid after the FF and the repaint: reverse video without underline in the bottom-right cell, `a` at home, blanks elsewhere, no
+complaint; `clearScreen` wrote `CSI m` and FF and nothing else.  On an emulator that does NOT clear on FF the same bytes are rejected (the
+hypothesis `Quiet.ff` is needed). -/
+example : dcSun.cornerTrick = true ∧
+    (bSun.e.grid.get 3 1).runes = [0x78] ∧ (bSun.e.grid.get 3 1).pen = { reverse := true } ∧
+    (bSun.e.grid.get 3 1).pen = penOf rcSun stSun ∧ (bSun.e.grid.get 3 1).garbage = false ∧
+    (bSun.e.grid.get 0 0).runes = [0x61] ∧ (bSun.e.grid.get 1 0).runes = [32] ∧ (bSun.e.grid.get 1 0).garbage = false ∧
+    bSun.e.pendingWrap = false ∧ bSun.e.malformed = [] ∧
+    Render.render rcSun (.clear {}) = [27, 91, 109, 12] ∧
+    ((after dcSun rcSun 4 2 e0Demo opsSun).step dcSun rcSun .sync).e.malformed ≠ [] := by decide +kernel
+
+def rcSunC : RenderCfg := renderCfgOf Gen.e28 false (fun _ => 2^32 + 17) (fun _ => 2^32)
+def dcSunC : DrawCfg := drawCfgOf Gen.e28 true false true
+/-- `ColorReset` foreground (so `op` = `CSI 0 m` is written) on palette colour 200, bold -/
+def stSunC : Style := { fg := colorReset, bg := 2^32 + 200, attrs := 1 }
+def opsSunC : List ScrOp := [.setContent 3 1 0x78 [] stSunC]
+def bSunC : BWorld := (after dcSunC rcSunC 4 2 e0Sun opsSunC).step dcSunC rcSunC .show
+
+theorem e28_mem : Gen.e28 ∈ Gen.db := by simp [Gen.db]
+theorem e28_name : Gen.e28.name ∈ cornerNames := by decide
+theorem fitSunC : FitOk rcSunC := by
+  intro _ col
+  have : Render.nColors rcSunC = 256 := by decide
+  have e : rcSunC.fit col = 2^32 + 17 := rfl
+  rw [this, e]; omega
+
+theorem opsSunC_ok : ∀ op ∈ opsSunC, op.Valid dcSunC ∧ OpB dcSunC op := by
+  intro op hop
+  simp only [opsSunC, List.mem_cons, List.not_mem_nil, or_false] at hop
+  subst hop
+  exact ⟨by simp [ScrOp.Valid, attrInvalid, stSunC], by simp, rfl⟩
+
+example : DisplaysBytes dcSunC rcSunC bSunC :=
+  db_show_faithful_bytes_corner Gen.e28 e28_mem e28_name true false true false _ _ (fun h => absurd h (by decide)) fitSunC 4 2
+    (by unfold SizeOk TParm.maxInt64; omega) e0Sun ⟨rfl, rfl, rfl, rfl, rfl, rfl, rfl, rfl⟩ (quiet_init _ _ (fun _ => rfl)) rfl rfl opsSunC
+    opsSunC_ok ⟨trivial, cornerSafe_of_B (by decide +kernel), trivial⟩ (Or.inl (by decide +kernel))
+
+set_option maxRecDepth 100000 in
+example : (bSunC.e.grid.get 3 1).runes = [0x78] ∧ (bSunC.e.grid.get 3 1).pen = { bg := .idx 200, bold := true } ∧
+    (bSunC.e.grid.get 3 1).pen = penOf rcSunC stSunC ∧ (bSunC.e.grid.get 3 1).garbage = false ∧ bSunC.e.malformed = [] ∧
+    Render.render rcSunC (.setPen stSunC) = [27,91,109, 27,91,48,109, 27,91,52,56,59,53,59,50,48,48,109, 27,91,49,109] := by
+  decide +kernel
+
+def rcBe : RenderCfg := renderCfgOf Gen.e04 false (fun _ => 2^32) (fun _ => 2^32)
+def dcBe : DrawCfg := drawCfgOf Gen.e04 true false true
+/-- red on `ColorReset` (so `op` = `CSI m` is written), bold, reverse -/
+def stBe : Style := { fg := 2^32 + 1, bg := colorReset, attrs := 5 }
+def opsBe : List ScrOp := [.setContent 3 1 0x78 [] stBe]
+def bBe : BWorld := (after dcBe rcBe 4 2 e0Demo opsBe).step dcBe rcBe .show
+
+theorem e04_mem : Gen.e04 ∈ Gen.db := by simp [Gen.db]
+theorem e04_name : Gen.e04.name ∈ cornerNames := by decide
+theorem fitBe : FitOk rcBe := by
+  intro _ col
+  have : Render.nColors rcBe = 8 := by decide
+  have e : rcBe.fit col = 2^32 := rfl
+  rw [this, e]; omega
+
+theorem opsBe_ok : ∀ op ∈ opsBe, op.Valid dcBe ∧ OpB dcBe op := by
+  intro op hop
+  simp only [opsBe, List.mem_cons, List.not_mem_nil, or_false] at hop
+  subst hop
+  exact ⟨by simp [ScrOp.Valid, attrInvalid, stBe], by simp, rfl⟩
+
+example : DisplaysBytes dcBe rcBe bBe :=
+  db_show_faithful_bytes_corner Gen.e04 e04_mem e04_name true false true false _ _ (fun h => absurd h (by decide)) fitBe 4 2
+    (by unfold SizeOk TParm.maxInt64; omega) e0Demo ⟨rfl, rfl, rfl, rfl, rfl, rfl, rfl, rfl⟩ (quiet_init _ _ (by decide +kernel)) rfl rfl opsBe
+    opsBe_ok ⟨trivial, cornerSafe_of_B (by decide +kernel), trivial⟩ (Or.inl (by decide +kernel))
+
+set_option maxRecDepth 100000 in
+example : (bBe.e.grid.get 3 1).runes = [0x78] ∧ (bBe.e.grid.get 3 1).pen = { fg := .idx 1, bold := true, reverse := true } ∧
+    (bBe.e.grid.get 3 1).pen = penOf rcBe stBe ∧ (bBe.e.grid.get 3 1).garbage = false ∧ bBe.e.malformed = [] := by
+  decide +kernel
 
 /-- aixterm: `op` (`CSI 32 m CSI 40 m`) sets green on black, and `penOf` says so: a style with `ColorReset` as foreground -/
 def rcAix : RenderCfg := renderCfgOf Gen.e00 false (fun _ => 2^32) (fun _ => 2^32)
